@@ -253,6 +253,10 @@ type vfWorldConf struct {
 
 	ServerName string
 	StrictSNI  bool
+	// UpstreamAddr, if set, is a real upstream server for the configuration:
+	// what the server uses from a reconfiguration until the test puts its
+	// in-process upstream back.
+	UpstreamAddr string
 
 	// WithLogStats creates real query log and statistics in the data dir.
 	WithLogStats bool
@@ -662,6 +666,9 @@ func vfNewWorld(c *vfWorldConf) (w *vfWorld, err error) {
 	if c.TLSCert != nil {
 		sconf.TLSConf.Cert = c.TLSCert
 		sconf.TLSConf.TLSListenAddrs = []*net.TCPAddr{{IP: vfListenIP()}}
+	}
+	if c.UpstreamAddr != "" {
+		sconf.UpstreamDNS = []string{c.UpstreamAddr}
 	}
 	err = w.srv.Prepare(sconf)
 	if err != nil {
